@@ -46,6 +46,9 @@ type handler1 struct {
 	snRemoteAddr     net.Addr
 	mqttConn         *util.ConnWithContext
 	registeredTopics sync.Map // uint16 => string
+	// TopicIDs of the topics the gateway is registering at the client
+	// (REGISTER sent, REGACK not yet received).
+	pendingRegistrations sync.Map // string => uint16
 	predefinedTopics topics.PredefinedTopics
 	keepAlive        uint16
 	clientID         string
@@ -361,9 +364,19 @@ func (h *handler1) handleBrokerPublish(ctx context.Context, mqPublish *mqPkts.Pu
 	var snPkt snPkts.Packet
 	var nextState transactionState
 	if needsRegister {
-		topicID, err := h.newTopicID()
-		if err != nil {
-			return err
+		// If the topic is being registered already (several messages for
+		// a new topic in a row), use the same TopicID: a topic must not
+		// get two TopicIDs.
+		var topicID uint16
+		if topicIDx, ok := h.pendingRegistrations.Load(mqPublish.TopicName); ok {
+			topicID = topicIDx.(uint16)
+		} else {
+			var err error
+			topicID, err = h.newTopicID()
+			if err != nil {
+				return err
+			}
+			h.pendingRegistrations.Store(mqPublish.TopicName, topicID)
 		}
 
 		// snPublish will be sent after REGACK is received
